@@ -307,6 +307,7 @@ def _judge_life(ctx, h, idx):
 def _sspor_life_part(ctx):
     from .. import sspor_hist as H
     rng = ctx.rng
+    hs = []
     for idx in range(ctx.scale(80, 1000)):
         if idx % 2:
             h = H.gen_sweep_history(rng)
@@ -317,6 +318,10 @@ def _sspor_life_part(ctx):
             ctx.count("life:random_history")
         ctx.evaluations += 1
         _judge_life(ctx, h, idx)
+        hs.append((idx, h))
+    # the theorems `run_rankOK` / `step_rankOK` (Props/C01Life.lean) are about Model/Sspor.lean: the same histories on the Lean machine
+    from .c14 import machine_compare
+    machine_compare(ctx, hs, "C01Life", search=lambda idx, h, i: _judge_life(ctx, H.History(h.basis, h.n_modes, h.ctor_ns, h.opt, h.datasets, list(h.ops[: i + 1])), idx))
 
 
 _NF = {"inf": float("inf"), "-inf": float("-inf"), "nan": float("nan")}
